@@ -36,6 +36,18 @@ CHECKS = {
     "C10": dict(engine="A+E", technique="bounded-exhaustive hash strings vs exact specification; enumeration of all random-source answer sequences (typed by request length) with <= 2 deviations in the first 10 requests",
                 text="Hash strings incl. long try-and-increment miss runs, wrap-around, unreduced values and all top-bit patterns are compared with the exact specification on 3 back ends; every sampling routine is run under every answer sequence of the typed menus with at most 2 deviations and must satisfy the post-conditions (range, non-identity, on curve, subgroup, consistency, determinism, termination).",
                 note="post-conditions only (robust to draw order); subgroup membership via the library's check plus Python on a subset", ref="4/C10"),
+    "C11": dict(engine="B", technique="explicit-state search: pure-model BFS over abstract key states + replay of witness histories on the real code + every enabled transition applied and the key invariant evaluated in every successor",
+                text="All abstract key states (kind x {free,fixed(v),hidden}^l) reachable by keygen/qualify/non-delegable/resample/adjust with every permitted attribute list are enumerated by a model BFS; each is rebuilt on the real library from its witness history and every enabled transition is executed; each successor must list exactly the model's free slots (no write past the binding's allocation), satisfy the pairing equations for a0/a1/b_i/bsig, decrypt for its pattern (also the master key), propagate flags and re-randomise.",
+                note="l=2 quick / l=3 thorough, two generic values + special values; dedup by abstract state guarded by multiple witness histories; the pairing inside the invariant is the library's (C01)", ref="4/C11"),
+    "C12": dict(engine="B", technique="exhaustive (key state x ciphertext attribute list) matrix on the C11 state graph; exhaustive illegal hidden-slot fills through 3 APIs; single-component tampering",
+                text="For every reachable key state and every ciphertext list of the alphabet, decryption returns the message iff the list equals the key's fixed pattern (mod r); every illegal attempt to give a hidden slot a value through qualifykey / nondelegable_qualifykey / adjust_nondelegable yields a key that opens no ciphertext with that slot set; altering a, b or c alone changes the result.",
+                note="inequalities are exact for the enumerated deterministic instances (coincidence probability ~2^-255)", ref="4/C12"),
+    "C13": dict(engine="B", technique="exhaustive (key state x extension list x message) enumeration with per-case negative space (other messages, every other list, component perturbations, incompatible lists)",
+                text="Every reachable key state signs every extension list of its pattern over free slots for every message of the alphabet via sign / sign_precomputed / attrs=NULL; all must verify (both verify forms); verification must fail for messages different mod r, every other list, hidden/differently-fixed slots, a0+G1, a1+G2; m and m+r verify alike.",
+                note="messages are scalars mod r", ref="4/C13"),
+    "C14": dict(engine="B", technique="exhaustive ordered pairs and triples of attribute lists; every (parent state, from, to) with both lists permitted; differential against recomputation from scratch",
+                text="adjust_precomputed equals precompute(target) for all ordered list pairs (l=3, incl. hidden entries and ids >= r) and all chains F->M->T; adjust_nondelegable equals direct non-delegable qualification component for component for every reachable parent state and every permitted (from,to), and along chains; precomputed encryption decrypts on every state.",
+                note="hidden entries carry id 0 as the Go binding builds them", ref="4/C14"),
 }
 
 LEVEL = "model_checking"
